@@ -56,6 +56,33 @@ CHECKS = {
          "Numeric radii of the uncertainty tables are not pinned (the property does not state them), only totality and monotonicity; "
          "TC29 subtype-0 horizontal mode follows the library's bit position (HorizontalModeAt26).",
          "DESIGN.md section 5 C13"),
+ "C03": ("TLA+ spec of DO-260B CPR in exact integer (binary-angle) arithmetic with mpmath-generated NL thresholds; TLC checks "
+         "decode(encode) within one bin / None iff NL differs over a position set dense around all 58 NL transitions, poles, equator, "
+         "meridians and zone edges; the state dump is replayed as frames into position()/airborne_position() and every result is "
+         "validated by TLC on the CPR lattice",
+         "Spec level: 40k (quick) to 350k (thorough) position/displacement cases x both time orders, exact arithmetic. Code level: those "
+         "cases x argument orders x time orders (int and datetime), same-parity and mixed-family pairs, recorded even/odd pairs.",
+         "Positions are binary angles of 360/2^24 deg; floats are projected to the lattice with 1e-4 lattice-unit tolerance; the property's "
+         "own within-one-bin predicate (not lattice equality) decides VIOLATION vs MODEL-DRIFT.",
+         "DESIGN.md section 5 C03, Appendix A"),
+ "C04": ("same CPR spec; TLC checks Local(Encode(p), ref) within one bin and independent of the reference over nine offsets up to the "
+         "half-zone edge, both parities, airborne and surface; dump replayed into *_position_with_ref and validated by TLC",
+         "C03 position set x parity x {air, surface} x 9 (quick: 4) reference offsets incl. corners and across equator / lon 0 / antimeridian.",
+         "References lie on the 360/2^20-degree grid and stay >= 0.01 deg inside the half-zone box (the statement says 'closer than').",
+         "DESIGN.md section 5 C04"),
+ "C05": ("same CPR spec with the surface (90-degree) encoding and a receiver location; TLC checks GlobalSurf over receivers up to ~40 NM "
+         "away incl. the far side of the equator / Greenwich / antimeridian; dump replayed into position()/surface_position() and "
+         "validated by TLC",
+         "C03 position set (surface encoding) x 6 displacements <= 0.2 NM x 7 (quick: 3) receiver offsets x both time orders.",
+         "Documented argument order (even, odd) only; longitude offset of the receiver scaled to stay < 45 deg at high latitude.",
+         "DESIGN.md section 5 C05"),
+ "C06": ("NL transition table generated from the DO-260B formula (mpmath, 50 digits) into TLA+; TLC checks the table and the NL function "
+         "on the whole 0.0005-degree grid; cprNL() replayed on grid / transition neighbourhoods / ulp neighbours / random floats, each "
+         "float converted to exact limbs and judged by TLC",
+         "All 360 001 grid points at spec level; code driven on the grid (quick: every 8th + all within 0.012 deg of a transition), +-4 ulp "
+         "and 10 offsets around each of 58 transitions x 2 signs, specials, 23k-460k random floats.",
+         "Within 1e-9 deg of a transition either neighbour is accepted (as the statement allows). py_common lane here; the Cython twin is C15's.",
+         "DESIGN.md section 5 C06"),
 }
 
 PENDING = {}
